@@ -27,9 +27,12 @@ PROPS = {
             {"kind": "graph", "spec": "MC_C02", "module": "Gateway", "evkinds": GW_EVENTS,
              "need": ["ApproveMessages/ok", "ValidateMessage/ok"]},
         ],
+        "level_text": "TLC proves the status-monotonicity / exactly-once invariants on every reachable state of a finite instance (all interleavings, no depth bound) and every one of its transitions is executed against the real gateway with the specification's post-state as oracle.",
         "rule": "cases = transitions (pre-state, action) of the bounded TLC instance replayed against the contracts; "
                 "distinct = distinct (abstract pre-state, action) pairs; every one changes or probes message status",
         "assumptions": ["soroban-env-host test mode implements on-chain semantics (rollback, require_auth, crypto)",
                         "bounds: 3 message keys x 2 contents, batches of <= 2 messages, one signer set"],
     },
 }
+
+NOT_YET = {}
